@@ -137,6 +137,7 @@ ValMethod = _mk("ValMethod", "recv name")  # `<unknown value>.<name>`
 Builtin = _mk("Builtin", "name")
 Module = _mk("Module", "name")
 ListV = _mk("ListV", "items")             # a list built by the code (items: tuple)
+DictV = _mk("DictV", "pairs")             # a dict display with constant keys (pairs: tuple of (key, value))
 CondV = _mk("CondV", "key neg")           # an undecided boolean
 Opaque = _mk("Opaque", "why")
 ClassSR = _mk("ClassSR", "")
@@ -226,7 +227,13 @@ class Reader:
                 try:
                     self.genv[node.targets[0].id] = self._const(ast.literal_eval(v))
                 except (ValueError, SyntaxError):
-                    self.genv[node.targets[0].id] = Opaque("module variable %s" % node.targets[0].id)
+                    try:
+                        got = list(self.ev(v, {}, St(), 0))
+                        if len(got) != 1 or got[0][1].effects:
+                            raise Unknown("module-level expression")
+                        self.genv[node.targets[0].id] = got[0][0]
+                    except Exception:       # noqa
+                        self.genv[node.targets[0].id] = Opaque("module variable %s" % node.targets[0].id)
 
     def _collect_class(self, node, seen):
         """Bind the class-level names of SandboxResult: base classes of the module first (right to left), then the
@@ -263,9 +270,9 @@ class Reader:
                         if isinstance(sub, ast.Name) and isinstance(sub.ctx, ast.Store):
                             names.append(sub.id)
                     raise Unknown("class-level %s" % type(n).__name__)
-            except (Unknown, Definite, RecursionError) as e:
+            except Exception as e:       # noqa  (Unknown, Definite, RecursionError, reader gaps)
                 for name in names:
-                    self.unread[name] = str(e) or "recursion"
+                    self.unread[name] = str(e) or type(e).__name__
                     self.methods.pop(name, None)
                     cenv.pop(name, None)
                     if name not in self.defined:
@@ -303,6 +310,8 @@ class Reader:
             return ListV(tuple(self._const(y) for y in x))
         if isinstance(x, tuple):
             return tuple(self._const(y) for y in x)
+        if isinstance(x, (set, frozenset)):
+            return tuple(sorted((self._const(y) for y in x), key=repr))     # only ever used for membership tests
         if x is None or isinstance(x, (bool, int, float, str, complex, bytes)):
             return x
         return Opaque("constant")
@@ -383,6 +392,18 @@ class Reader:
             yield from self.ev_comp(n, env, st, depth)
         elif isinstance(n, ast.Lambda):
             yield Func(n, freeze(env)), st
+        elif isinstance(n, ast.Dict):
+            if any(k is None for k in n.keys):
+                raise Unknown("dict unpacking")
+            for keys, st1 in self.ev_seq(list(n.keys), env, st, depth):
+                if any(isinstance(k, V) or isinstance(k, tuple) for k in keys):
+                    raise Unknown("dict key")
+                for vals, st2 in self.ev_seq(list(n.values), env, st1, depth):
+                    yield DictV(tuple(zip(keys, vals))), st2
+        elif isinstance(n, ast.NamedExpr) and isinstance(n.target, ast.Name):
+            for v, st1 in self.ev(n.value, env, st, depth):
+                env[n.target.id] = v
+                yield v, st1
         elif isinstance(n, ast.Starred):
             raise Unknown("starred expression here")
         else:
@@ -562,6 +583,13 @@ class Reader:
             if isinstance(idx, int) and not isinstance(idx, bool) and -len(items) <= idx < len(items):
                 return items[idx], st
             raise Unknown("index into a built sequence")
+        if isinstance(base, DictV):
+            if isinstance(idx, (V, tuple)):
+                raise Unknown("dict lookup with %r" % (idx,))
+            for k, v in base.pairs:
+                if type(k) is type(idx) and k == idx:
+                    return v, st
+            raise Unknown("dict lookup misses")
         if isinstance(base, SYMBOLIC):
             return st.effect(("subscript", base, idx))
         raise Unknown("subscript of %r" % (base,))
@@ -987,6 +1015,21 @@ def norm_effect(e):
     return (e[0],) + tuple(role(a) for a in e[1:])
 
 
+def drop_infeasible(paths):
+    """An operator (`a + b`, `a < b`, divmod, pow, `in`) never EVALUATES to NotImplemented - CPython turns a declining
+    dunder into the reflected call or a TypeError - so a path that assumes it did is dead code."""
+    out = []
+    for ret, st in paths:
+        dead = False
+        for key, b in st.conds:
+            if key[0] == "isNI" and b and isinstance(key[1], OpRes) and key[1].idx < len(st.effects):
+                if st.effects[key[1].idx][0] in ("infix", "pow3", "isIn"):
+                    dead = True
+        if not dead:
+            out.append((ret, st))
+    return out
+
+
 def reify_truth(paths):
     """`True if v else False`, `if v: return True / return False`, `not not v` all return bool(v): a returned
     undecided truth value becomes the result of the `bool` operation it tests, and two paths that only differ in
@@ -1024,7 +1067,7 @@ def behaviour(paths):
     """All paths of one scenario -> (first effect, fallback effect or None, prints, wrap)."""
     if not paths:
         raise Definite("no path returns")
-    paths = reify_truth(paths)
+    paths = reify_truth(drop_infeasible(paths))
     summaries = []
     for ret, st in paths:
         effs = [norm_effect(e) for e in st.effects]
@@ -1212,7 +1255,9 @@ def strip_mark_keep_extra(eff):
 def read_spoof(reader):
     fn = reader.methods.get("__getattribute__")
     if fn is None:
-        return False
+        if "__getattribute__" in reader.unread:
+            raise Unknown(reader.unread["__getattribute__"])
+        return False            # no __getattribute__ at all: nothing answers for __class__ but the real class
     paths = reader.run(fn, [SELF_P, "__class__"])
     rets = {ret for ret, _ in paths}
     for r in rets:
@@ -1293,6 +1338,8 @@ def generate():
             why = ("unknown", str(u))
         except RecursionError:
             why = ("unknown", "recursion")
+        except Exception as e:       # noqa  a gap of the reader is not a fact about the code: measure instead
+            why = ("unknown", "reader error %s: %s" % (type(e).__name__, e))
         if plan is not None:
             ok, diff = probe.matches(name, probe.Plan(*plan), flags)
             if not ok:
@@ -1314,13 +1361,13 @@ def generate():
 
     try:
         spoof_read = read_spoof(reader)
-    except (Unknown, Definite, RecursionError) as e:
-        spoof_read = str(e) or "recursion"
+    except Exception as e:       # noqa  (Unknown, Definite, RecursionError, reader gaps)
+        spoof_read = str(e) or type(e).__name__
     spoof = combine_flag("spoofsClass", spoof_read, sem["spoof"] is True, notes)
     try:
         len_read = read_len_fn(reader)
-    except (Unknown, Definite, RecursionError) as e:
-        len_read = str(e) or "recursion"
+    except Exception as e:       # noqa
+        len_read = str(e) or type(e).__name__
     len_ok = combine_flag("lenFnDelegates", len_read, probe.measure_len_fn(), notes)
 
     lines = [
